@@ -587,6 +587,14 @@ type Contract struct {
 	Ghost     string // free-form note
 	Fresh     []string
 	Covers    []*Clause
+	GhostSets []*GhostSet
+}
+
+// GhostSet: `ghost-set g[idx] = val when cond` (ghost code run at every return of the function)
+type GhostSet struct {
+	Var           string
+	Idx, Val, Cond Expr
+	Src           string
 }
 
 type SpecFunc struct {
@@ -649,7 +657,7 @@ func parseTags(s string) (props []string, label string, rest string) {
 }
 
 var clauseKW = map[string]bool{"requires": true, "ensures": true, "assigns": true, "pure": true, "trusted": true, "loop": true,
-	"at-call": true, "func": true, "spec": true, "ghost": true, "lemma": true, "axiom": true, "iterated": true, "signal": true, "fresh": true, "cover": true, "nobody": true}
+	"at-call": true, "func": true, "spec": true, "ghost": true, "lemma": true, "axiom": true, "iterated": true, "signal": true, "fresh": true, "cover": true, "nobody": true, "ghost-set": true, "moninv": true}
 
 // LoadContractFile parses one contract file. pkgPath qualifies short function keys ("" for spec files,
 // whose keys are already fully qualified).
@@ -882,6 +890,40 @@ func (cs *ContractSet) LoadContractText(text, path, pkgPath string, external boo
 				cur.NoBody = true
 			case "iterated":
 				cur.Iterated = true
+			case "ghost-set":
+				// ghost-set g[idx] = val when cond   |   ghost-set g = val when cond
+				gs := &GhostSet{Src: rest}
+				w := strings.Index(rest, " when ")
+				lhsrhs := rest
+				if w >= 0 {
+					lhsrhs = rest[:w]
+					c, err := ParseExpr(rest[w+6:])
+					if err != nil {
+						return fail(err)
+					}
+					gs.Cond = c
+				}
+				eq := strings.Index(lhsrhs, " = ")
+				if eq < 0 {
+					return fail(fmt.Errorf("ghost-set g[idx] = val [when cond]"))
+				}
+				lhs, rhs := strings.TrimSpace(lhsrhs[:eq]), strings.TrimSpace(lhsrhs[eq+3:])
+				if br := strings.Index(lhs, "["); br >= 0 {
+					gs.Var = lhs[:br]
+					ie, err := ParseExpr(lhs[br+1 : len(lhs)-1])
+					if err != nil {
+						return fail(err)
+					}
+					gs.Idx = ie
+				} else {
+					gs.Var = lhs
+				}
+				ve, err := ParseExpr(rhs)
+				if err != nil {
+					return fail(err)
+				}
+				gs.Val = ve
+				cur.GhostSets = append(cur.GhostSets, gs)
 			case "fresh":
 				for _, a := range strings.Split(rest, ",") {
 					cur.Fresh = append(cur.Fresh, strings.TrimSpace(a))
